@@ -10,7 +10,6 @@ NA = {
  'C12': 'The checker consumes pragmatic JSON models with string ids and std hash maps and needs a core Problem; breach injection is generate-and-run, not a solver query over this code.',
  'C13': 'Readers are line/whitespace tokenisers over BufReader<String> feeding Jobs::new/Fleet::new (rayon, hashing); the only arithmetic kernel (Euclidean matrix + indexing) is decided under C16.',
  'C17': 'LKH, DBSCAN and k-medoids are built on std HashMap/HashSet/BTreeSet over symbolic keys with an unbounded improvement loop; nothing loop-free and container-free carries the contracts.',
- 'C14': 'Attempted and dropped (DESIGN.md 8.1/10): 38 inductive-step Kani harnesses over Tour exist in kani/vrp-core/tour_proofs.rs but 16 of the 18 quick ones exceed 16 GB or 420 s under CBMC (heap Vec<Activity> after memmove is encoded byte-wise); the invariant is purely structural, so running the MIR->SMT engine on fixed templates would enumerate concrete runs instead of deciding anything; Registry/RegistryContext use std HashMap<usize, HashSet<Arc<Actor>>> with RandomState, not constructible under Kani.',
  'C19': 'The GSOM network is a HashMap<Coordinate, Node> grown/compacted with rayon and float geometry; Rosomaxa needs an Environment with thread pools; no kernel of the invariant is loop- and container-free.',
 }
 PENDING = 'check designed (DESIGN.md section 3) but not built/calibrated yet in this session; not claimed until it runs reliably on the unchanged tree'
